@@ -38,7 +38,7 @@ func init() {
 			"against explicitly built sets of truncated bit strings. Non-trivial+distinct = hash of (a,b) pairs with a != b; hash of (keys, s, e, m).",
 		Assumptions: []string{"non-empty key lists; CountPrefixes only on strictly ascending keys, e-s >= 2, m >= 1"},
 		Flavours:    releaseAnd386,
-		Required: []string{"arguments-in-read-only-memory", "fd/equal", "fd/byte-prefix", "fd/nul-padding-twin", "fd/diff-in-chunk-0", "fd/diff-in-chunk-1", "fd/diff-in-chunk-2", "fd/diff-at-chunk-boundary", "fd/empty-key", "fd/single-key-list",
+		Required: []string{"long-run/calls>=100000-per-function", "arguments-in-read-only-memory", "fd/equal", "fd/byte-prefix", "fd/nul-padding-twin", "fd/diff-in-chunk-0", "fd/diff-in-chunk-1", "fd/diff-in-chunk-2", "fd/diff-at-chunk-boundary", "fd/empty-key", "fd/single-key-list",
 			"cp/s>0", "cp/m=1", "cp/m>=64", "cp/key-shorter-than-prefix", "cp/all-subranges", "cp/keys>=66", "cp/range-ends-at-multiple-of-64-keys", "cp/range>2^17-dense-keys", "cp/key-buffer-refilled-after-New", "fd/first-diff-bit>=2048", "fd/first-diff-bit>=32768", "fd/keys>2^18"},
 		Families: func(c *mon.Config) []mon.Family {
 			return []mon.Family{
@@ -61,6 +61,7 @@ func init() {
 				{Name: "countprefixes-medium", Env: 2, N: c.Pick(150, 15000), Run: c16CountMedium},
 				{Name: "long-keys", Env: 2, N: len(c16LongLens) * c.Pick(2, 200), Run: c16LongKeys},
 				{Name: "many-keys", Env: 1, N: c.Pick(1, 12), Run: c16ManyKeys},
+				lrFamily(c16LongRun),
 			}
 		},
 	})
@@ -234,7 +235,7 @@ func c16CountWith(w *mon.W, idx int, medium bool) {
 		keys = gen.SortedUnique(gen.KeyZoo(r, 2+r.Intn(r.Pick(7, 7, 39)), r.Pick(1, 2, 3, 9, 17)))
 	}
 	w.Op, w.Obj = "sigbits.New", keys
-	qKeys, gKeys := argStrs(w, keys) // the reused, poisoned argument buffer of this worker
+	qKeys, gKeys := argStrs(w, keys)    // the reused, poisoned argument buffer of this worker
 	if idx&1 == 0 && roPickStrs(keys) { // or a list in memory that cannot be written (ro.go)
 		if v, rel, ok := roOneStrs(w, keys); ok {
 			qKeys = v
